@@ -20,6 +20,8 @@ struct Sum {
     has_tbl: bool,
     needs_ok: BTreeSet<usize>,
     needs_prot: BTreeSet<usize>,
+    /// frame counters this function may bump as seen by a caller sharing its frame
+    bumps: BTreeSet<String>,
 }
 
 pub struct EffectOut {
@@ -119,6 +121,9 @@ pub fn generate(idx: &SrcIndex, prelude: &str, cfgv: &Value) -> EffectOut {
             let gs = all_guards(s);
             walk_all(&s.body, &mut |x| match x {
                 Sk::Ev { name, args, .. } => {
+                    if let Some(c) = ev_counter(name) {
+                        n.bumps.insert(c.to_string());
+                    }
                     match name.as_str() {
                         "ev_lock" | "ev_unlock" | "ev_validate" => n.may_lock = true,
                         "ev_wait" => n.may_wait = true,
@@ -127,12 +132,12 @@ pub fn generate(idx: &SrcIndex, prelude: &str, cfgv: &Value) -> EffectOut {
                         "ev_write_table" | "ev_write_next_table" => n.has_tbl = true,
                         _ => {}
                     }
-                    if matches!(name.as_str(), "ev_use" | "ev_retire" | "ev_store_guard") && args.get(1).map(|r| r == "1").unwrap_or(false) {
+                    if matches!(name.as_str(), "ev_use" | "ev_retire" | "ev_retire_value" | "ev_retire_node" | "ev_store_guard") && args.get(1).map(|r| r == "1").unwrap_or(false) {
                         if let Some(k) = gs.iter().position(|g| Some(g) == args.first()) {
                             n.needs_ok.insert(k);
                         }
                     }
-                    if name == "ev_retire" {
+                    if name == "ev_retire" || name == "ev_retire_value" || name == "ev_retire_node" {
                         if let Some(k) = gs.iter().position(|g| Some(g) == args.first()) {
                             n.needs_prot.insert(k);
                         }
@@ -151,6 +156,11 @@ pub fn generate(idx: &SrcIndex, prelude: &str, cfgv: &Value) -> EffectOut {
                         n.may_callback |= c.may_callback;
                         n.has_ctl |= c.has_ctl;
                         n.has_tbl |= c.has_tbl;
+                        if inherit_frame.contains(callee) {
+                            for b in &c.bumps {
+                                n.bumps.insert(b.clone());
+                            }
+                        }
                         for (k, g) in guards.iter().enumerate() {
                             if let Some(mine) = gs.iter().position(|x| x == g) {
                                 if c.needs_ok.contains(&k) && *root == 1 && !entry_public(&sks[j]) {
@@ -172,6 +182,7 @@ pub fn generate(idx: &SrcIndex, prelude: &str, cfgv: &Value) -> EffectOut {
                 || n.has_tbl != sums[i].has_tbl
                 || n.needs_ok != sums[i].needs_ok
                 || n.needs_prot != sums[i].needs_prot
+                || n.bumps != sums[i].bumps
             {
                 sums[i] = n;
                 changed = true;
@@ -235,7 +246,10 @@ pub fn generate(idx: &SrcIndex, prelude: &str, cfgv: &Value) -> EffectOut {
             }
         }
         if inherit {
-            ens.push("final(f).v().wsv >= old(f).v().wsv, final(f).v().nts == old(f).v().nts, final(f).v().allocs >= old(f).v().allocs".into());
+            for c in ["wsv", "nts", "allocs", "vret", "nret"] {
+                let op = if sm.bumps.contains(c) { ">=" } else { "==" };
+                ens.push(format!("final(f).v().{} {} old(f).v().{}", c, op, c));
+            }
             ens.push("final(f).v().nt_cleared == old(f).v().nt_cleared, final(f).v().tbl_swapped == old(f).v().tbl_swapped".into());
         } else {
             ens.push("frame_eq(final(f).v(), old(f).v())".into());
@@ -272,7 +286,7 @@ pub fn generate(idx: &SrcIndex, prelude: &str, cfgv: &Value) -> EffectOut {
         t.push_str(&format!("\n// ---- {}   ({}:{})  class={} lock-state={} public={}\n", s.key, s.file, s.line, class, if m { "mutable" } else { "read-only" }, public));
         t.push_str(&format!("//# props={}\n", props.join(",")));
         t.push_str("#[verifier::exec_allows_no_decreases_clause]\n#[verifier::loop_isolation(false)]\n#[verifier::allow_complex_invariants]\n");
-        t.push_str(&format!("fn {}({})\n    requires\n", s.ident, params.join(", ")));
+        t.push_str(&format!("fn {}({}){}\n    requires\n", s.ident, params.join(", "), if s.returns_bool { " -> (ret: bool)" } else { "" }));
         for r in &req {
             if r.contains("// OBL:") {
                 t.push_str(&format!("        {}\n", r));
@@ -289,13 +303,19 @@ pub fn generate(idx: &SrcIndex, prelude: &str, cfgv: &Value) -> EffectOut {
             }
         }
         t.push_str("{\n");
-        let mut pr = Printer { out: String::new(), pos: &pos, sums: &sums, mclass: &mclass, m, inherit, extra_loops: ex.and_then(|e| e.get("loops")).cloned(), loop_stack: vec![], inherit_set: &inherit_frame, cut_id: 0, use_cuts: { let mut n = 0; walk_all(&s.body, &mut |x| if let Sk::Ev { name, .. } = x { if ev_counter(name).is_some() { n += 1; } }); n >= 30 } };
+        let mut pr = Printer { out: String::new(), pos: &pos, sums: &sums, mclass: &mclass, m, inherit, extra_loops: ex.and_then(|e| e.get("loops")).cloned(), loop_stack: vec![], inherit_set: &inherit_frame, cut_id: 0, exit_asserts: exlist("exit_assert"), returns_bool: s.returns_bool, use_cuts: { let mut n = 0; walk_all(&s.body, &mut |x| if let Sk::Ev { name, .. } = x { if ev_counter(name).is_some() { n += 1; } }); n >= 30 } };
         if !inherit {
             pr.out.push_str("    let fr = ev_frame_enter(f);\n");
         }
         pr.stmts(&s.body, 1);
+        for x in exlist("exit_assert") {
+            pr.out.push_str(&format!("    assert({});\n", x));
+        }
         if !inherit {
             pr.out.push_str("    ev_frame_exit(f, fr);\n");
+        }
+        if s.returns_bool {
+            pr.out.push_str("    nondet()\n");
         }
         t.push_str(&pr.out);
         t.push_str("}\n");
@@ -338,8 +358,11 @@ fn fn_props(s: &FnSk, public: bool, read_paths: &BTreeSet<String>, cfg: &Cfg) ->
         p.push("C08");
         p.push("C18");
     }
-    if has("ev_retire") {
+    if has("ev_retire") || has("ev_retire_value") || has("ev_retire_node") {
         p.push("C03");
+    }
+    if has("ev_retire_value") {
+        p.push("C04");
     }
     if has("ev_lock") {
         p.push("C11");
@@ -364,6 +387,8 @@ struct Printer<'a> {
     loop_stack: Vec<usize>,
     inherit_set: &'a BTreeSet<String>,
     cut_id: usize,
+    exit_asserts: Vec<String>,
+    returns_bool: bool,
     /// merge-point lemmas are only emitted for functions with very many write events (solver cost)
     use_cuts: bool,
 }
@@ -398,7 +423,7 @@ impl<'a> Printer<'a> {
             Some(&j) => match c {
                 "callbacks" => self.sums[j].may_callback,
                 // frame-local counters are restored by the callee's frame, unless it inherits the caller's frame
-                "wsv" | "allocs" => self.inherit_set.contains(callee),
+                "wsv" | "allocs" | "vret" | "nret" | "nts" => self.inherit_set.contains(callee) && self.sums[j].bumps.contains(c),
                 _ => false,
             },
             None => false,
@@ -455,6 +480,7 @@ impl<'a> Printer<'a> {
                 let a: Vec<String> = match name.as_str() {
                     "ev_check" | "ev_use" | "ev_store_guard" => vec![gref(&args[0]), rootref(&args[1])],
                     "ev_retire" => vec!["Ghost(f.v())".into(), gref(&args[0]), rootref(&args[1])],
+                    "ev_retire_value" | "ev_retire_node" => vec!["f".into(), gref(&args[0]), rootref(&args[1])],
                     "ev_lock" | "ev_validate" => vec!["lk".into(), "f".into()],
                     "ev_unlock" | "ev_wait" => vec!["lk".into()],
                     "ev_write_lk" | "ev_store_nt_bin" | "ev_store_marker" | "ev_swap_waiter" | "ev_callback" => vec![self.lkx().into(), "f".into()],
@@ -478,7 +504,7 @@ impl<'a> Printer<'a> {
                     self.out.push_str(&format!("{}let {} = mk_unprotected(); // {}\n", i, name, line));
                 }
             }
-            Sk::Call { callee, root, guards, bools, line, .. } => {
+            Sk::Call { callee, root, guards, bools, line, result } => {
                 let id = sk_ident(callee);
                 let cm = self.pos.get(callee).map(|&j| self.mclass[j]).unwrap_or(false);
                 let mut a = vec![if cm { "lk".to_string() } else { self.lkx().to_string() }, "f".to_string(), rootref(&root.to_string())];
@@ -488,7 +514,10 @@ impl<'a> Printer<'a> {
                 for b in bools {
                     a.push(b.text());
                 }
-                self.out.push_str(&format!("{}{}({}); // {}\n", i, id, a.join(", "), line));
+                match result {
+                    Some(r) => self.out.push_str(&format!("{}let {} = {}({}); // {}\n", i, r, id, a.join(", "), line)),
+                    None => self.out.push_str(&format!("{}{}({}); // {}\n", i, id, a.join(", "), line)),
+                }
             }
             Sk::Decl { name, init } => self.out.push_str(&format!("{}let mut {}: bool = {};\n", i, name, init.text())),
             Sk::Set { name, val } => self.out.push_str(&format!("{}{} = {};\n", i, name, val.text())),
@@ -516,7 +545,13 @@ impl<'a> Printer<'a> {
                     self.out.push_str(&format!("{}}}\n", i));
                 }
                 if cut {
-                    self.out.push_str(&format!("{}assert(f.v().wsv >= c{}.wsv && f.v().nts >= c{}.nts && f.v().allocs >= c{}.allocs && f.v().callbacks >= c{}.callbacks);\n", i, cid, cid, cid, cid));
+                    let me = self as *const Printer;
+                    let cb = |callee: &str, cc: &str| -> bool { unsafe { (*me).callee_bumps(callee, cc) } };
+                    let parts: Vec<String> = COUNTERS.iter().map(|c| {
+                        let bumped = contains_bump(then, c, &cb) || contains_bump(els, c, &cb);
+                        format!("f.v().{} {} c{}.{}", c, if bumped { ">=" } else { "==" }, cid, c)
+                    }).collect();
+                    self.out.push_str(&format!("{}assert({});\n", i, parts.join(" && ")));
                 }
             }
             Sk::Break(t) => {
@@ -533,11 +568,18 @@ impl<'a> Printer<'a> {
                     self.out.push_str(&format!("{}continue 'l{};\n", i, t));
                 }
             }
-            Sk::Return(_) => {
+            Sk::Return(v) => {
+                for x in &self.exit_asserts {
+                    self.out.push_str(&format!("{}assert({});\n", i, x));
+                }
                 if !self.inherit {
                     self.out.push_str(&format!("{}ev_frame_exit(f, fr);\n", i));
                 }
-                self.out.push_str(&format!("{}return;\n", i));
+                if self.returns_bool {
+                    self.out.push_str(&format!("{}return {};\n", i, v.text()));
+                } else {
+                    self.out.push_str(&format!("{}return;\n", i));
+                }
             }
             Sk::Loop { body, id, line } => {
                 let lf = format!("l{}f", id);
